@@ -1,6 +1,6 @@
 (* Correspondence cases for C02 (SimpleDMRS codec at token level). *)
 From Coq Require Import List NArith ZArith Bool.
-From PyD Require Export Base.Str Model.Hier Model.Mrs Model.Iso Model.SimpleMrs Model.SimpleDmrs Model.MrsJson Model.DmrsJson Corr.Common Corr.C01.
+From PyD Require Export Base.Str Model.Hier Model.Mrs Model.Iso Model.SimpleMrs Model.SimpleDmrs Model.MrsJson Model.DmrsJson Model.Dmrx Corr.Common Corr.C01.
 Import ListNotations.
 
 Definition dtok_eqb (a b : dtok) : bool :=
@@ -29,11 +29,42 @@ Definition dmrs_eqb (a b : dmrs) : bool :=
 Inductive case :=
 | DEnc (propopt lnkopt : bool) (g : dmrs) (toks : list dtok)
 | DDec (toks : list dtok) (res : option (list dmrs))
-| DJson (propopt lnkopt : bool) (g : dmrs) (d : jv) (back : dmrs).
+| DJson (propopt lnkopt : bool) (g : dmrs) (d : jv) (back : dmrs)
+(* DMRX at the level of the element tree: the predicate oracles are given as tables
+   (predicate -> its split, or None for an abstract one; lemma, pos, sense -> created) *)
+| DXml (propopt lnkopt : bool) (g : dmrs)
+       (splits : list (str * option (str * str * option str)))
+       (creates : list (str * str * option str * str))
+       (elem : xml) (back : dmrs).
+
+Fixpoint xml_eqb (a b : xml) {struct a} : bool :=
+  match a, b with
+  | XE t1 a1 x1 k1, XE t2 a2 x2 k2 =>
+      str_eqb t1 t2 && ss_eqb a1 a2 && option_eqb str_eqb x1 x2 &&
+      (fix go (l1 l2 : list xml) : bool :=
+         match l1, l2 with
+         | [], [] => true
+         | c1 :: l1', c2 :: l2' => xml_eqb c1 c2 && go l1' l2'
+         | _, _ => false
+         end) k1 k2
+  end.
+
+Definition split_of (t : list (str * option (str * str * option str))) (p : str) : option (str * str * option str) :=
+  match dict_get p t with Some r => r | None => None end.
+
+Fixpoint create_of (t : list (str * str * option str * str)) (l pos : str) (s : option str) : str :=
+  match t with
+  | [] => []
+  | (l', p', s', v) :: t' =>
+      if str_eqb l l' && str_eqb pos p' && option_eqb str_eqb s s' then v else create_of t' l pos s
+  end.
 
 Definition check_case (c : case) : bool :=
   match c with
   | DEnc p l g toks => list_eqb dtok_eqb (enc_dmrs p l g) toks
   | DDec toks res => option_eqb (list_eqb dmrs_eqb) (dec_dmrs_all (S (length toks)) toks) res
   | DJson p l g d back => jv_eqb (d_to_dict p l g) d && option_eqb dmrs_eqb (d_from_dict d) (Some back)
+  | DXml p l g splits creates elem back =>
+      xml_eqb (encode_dmrs (split_of splits) p l g) elem &&
+      option_eqb dmrs_eqb (decode_dmrs (create_of creates) elem) (Some back)
   end.
